@@ -23,7 +23,7 @@ UNKNOWN = ["nope", "Temp", "temp ", "Y(XX)"]
 
 @st.composite
 def cases(draw, tier="quick"):
-    spec = draw(plotgen.plot_specs(thin=True, max_cells=3000 if tier == "quick" else 12000, max_fields=6))
+    spec = draw(plotgen.plot_specs(thin=True, many=True, max_cells=3000 if tier == "quick" else 12000, max_fields=6))
     nf = len(spec["fields"])
     if draw(st.sampled_from(["list"] * 9 + ["all"])) == "all":
         vars_ = "all"
